@@ -99,6 +99,19 @@ CHECKS["C15"] = dict(engine="E1", cat="model_checking", design="4/C15",
                      note="compound operands are judged by laws only; the distribution law is derived (a match of A is a match "
                           "of A || B), not literal in the statement")
 
+CHECKS["C08"] = dict(engine="E1", cat="model_checking", design="4/C08",
+                     technique="exhaustive enumeration of JSON documents of a layered grammar (every JSON type at every "
+                               "layer), every-position replacement in a well-typed base, and every structural fault at every "
+                               "applicable position",
+                     text="~31k JSON documents (every JSON type as column entry / HED entry / category value, top-level "
+                          "non-objects, every position of a 4-column base replaced by 25 smaller documents) are loaded and "
+                          "validated: never an exception other than HedFileError for a non-object top level, result is a list "
+                          "of well-formed issues; 13 fault kinds injected at every applicable position (all column orders for "
+                          "nested references) must yield an error with the rule's code; valid sidecars in every column order "
+                          "must be clean.",
+                     note="document depth/width bounded by the layered grammar; for type faults the library's specific "
+                          "sidecar type codes are accepted besides SIDECAR_INVALID")
+
 PENDING_REASON = "check not built yet in this revision (planned in DESIGN.md section 4); not claimed until it is"
 
 
